@@ -7,7 +7,7 @@
 (* An unliftable observation is the pair <<0,0>> (NaR); it is unequal to   *)
 (* every rational.                                                         *)
 (***************************************************************************)
-EXTENDS FVGeometry
+EXTENDS FVBoundary
 
 IsNaR(q) == q[2] = 0
 \* 1-based position of interior cell c in the C-order flattening of the interior block
@@ -44,6 +44,79 @@ C10_Holds(name, g, o) ==
     [] name = "C10_VolSum" -> C10_VolSum(g, o)
     [] name = "C10_Labels" -> C10_Labels(g, o)
 C10_Failing(g, o) == {n \in C10_Clauses : ~C10_Holds(n, g, o)}
+
+-----------------------------------------------------------------------------
+(* generic helpers over sparse matrices / vectors (module FVOperators)      *)
+RowSum(M, r) == RSumSet(MRow(M, r), LAMBDA p : M[p])
+InteriorRowsOnly(g, M) == MRows(M) \subseteq Interior(g)
+VecInteriorOnly(g, v) == \A c \in AllCells(g) : c \notin Interior(g) => RIsZero(v[c])
+\* sum over interior rows of  V[row] * M[row, col]
+WeightedColSum(V, M, c) == RSumSet(MCol(M, c), LAMBDA p : RMul(V[p[1]], M[p]))
+WeightedSum(g, V, v) == RSumSet(Interior(g), LAMBDA c : RMul(V[c], v[c]))
+ConstField(g, q) == [c \in AllCells(g) |-> q]
+
+-----------------------------------------------------------------------------
+(* C05 - implicit matrix terms and the explicit gradient/mean/divergence chain agree.
+   Both arguments are matrices: the builder's matrix and the matrix whose column c is the
+   explicit chain applied to the unit field e_c (ghost cells included).                  *)
+C05_Agree(g, M, chain) == InteriorRowsOnly(g, M) /\ M = chain
+
+(* C06 - uniform fields stay uniform *)
+C06_DiffConst(g, Mdiff) == \A P \in Interior(g) : RIsZero(RowSum(Mdiff, P))
+C06_AdvConst(g, M, divu) == \A P \in Interior(g) : RowSum(M, P) = divu[P]
+C06_SourceDiag(g, Msrc, beta) ==
+  /\ \A p \in DOMAIN Msrc : p[1] = p[2] /\ p[1] \in Interior(g)
+  /\ \A P \in Interior(g) : MGet(Msrc, P, P) = beta[P]
+C06_SourceVec(g, Rsrc, gamma) ==
+  \A c \in AllCells(g) : Rsrc[c] = (IF c \in Interior(g) THEN gamma[c] ELSE RZero)
+
+(* C01 - closed systems conserve the domain integral: with zero coefficient on every
+   domain-boundary face the V-weighted column sums of a flux-form matrix vanish, for
+   every column (interior and ghost cells alike); V = the volumes domainIntegral uses   *)
+C01_ClosedMatrix(g, V, M) == \A c \in AllCells(g) : RIsZero(WeightedColSum(V, M, c))
+C01_ClosedVector(g, V, v) == RIsZero(WeightedSum(g, V, v))
+
+-----------------------------------------------------------------------------
+(* C03 - reported boundary values satisfy the configured BCs *)
+C03_Robin(g, bc, full) ==
+  \A s \in SideNames(g) : ~PeriodicAxis(g, bc, SideAxisOf(s)) =>
+     \A P \in Adjacent(g, s) : RIsZero(RobinResidual(g, bc, s, P, full))
+C03_Periodic(g, bc, full) ==
+  \A a \in Axes(g) : PeriodicAxis(g, bc, a) =>
+     \A P \in Adjacent(g, LoSide(a)) :
+        /\ full[Shift(P, a, -1)] = full[[P EXCEPT ![a] = NCells(g, a)]]
+        /\ full[[P EXCEPT ![a] = NCells(g, a) + 1]] = full[P]
+C03_InteriorKept(g, phi, full) == \A c \in Interior(g) : full[c] = phi[c]
+UniformEnds(g, a) == Size(g, a, 0) = Size(g, a, NCells(g, a) + 1)
+\* the solver's boundary rows, applied to the reported full field, are satisfied
+C03_RowsSatisfied(g, bc, Mbc, Rbc, full) ==
+  \A c \in AllCells(g) : GhostDegree(g, c) = 1 =>
+     LET a == CHOOSE x \in Axes(g) : c[x] = 0 \/ c[x] = NCells(g, x) + 1
+     IN  (PeriodicAxis(g, bc, a) => UniformEnds(g, a)) => MApplyRow(Mbc, full, c) = Rbc[c]
+\* ... and each non-periodic boundary row is a non-zero multiple of the Robin relation
+C03_RowsEncodeRobin(g, bc, Mbc, Rbc) ==
+  \A s \in SideNames(g) : ~PeriodicAxis(g, bc, SideAxisOf(s)) =>
+     \A P \in Adjacent(g, s) :
+        LET gh == GhostOf(g, s, P)
+            cg == IF IsHigh(s) THEN CoefHi(g, bc, s, P) ELSE CoefLo(g, bc, s, P)
+            cp == IF IsHigh(s) THEN CoefLo(g, bc, s, P) ELSE CoefHi(g, bc, s, P)
+            lam == RDiv(MGet(Mbc, gh, gh), cg)
+        IN  /\ ~RIsZero(lam)
+            /\ MGet(Mbc, gh, P) = RMul(lam, cp)
+            /\ Rbc[gh] = RMul(lam, bc[s].c[P])
+            /\ {p[2] : p \in MRow(Mbc, gh)} \subseteq {gh, P}
+\* boundary rows never touch interior equations; terms never touch boundary rows
+C03_RowsOnGhostOnly(g, Mbc, Rbc) ==
+  /\ MRows(Mbc) \cap Interior(g) = {}
+  /\ \A c \in Interior(g) : RIsZero(Rbc[c])
+\* multiplying (a, b, c) by lam # 0: same ghost values, rows and RHS scaled together
+C03_ScaleInvariant(g, bc, lam, full, fullS, Mbc, Rbc, MbcS, RbcS) ==
+  /\ fullS = full
+  /\ \A c \in AllCells(g) : GhostDegree(g, c) = 1 =>
+        LET a == CHOOSE x \in Axes(g) : c[x] = 0 \/ c[x] = NCells(g, x) + 1
+        IN  ~PeriodicAxis(g, bc, a) =>
+              /\ RbcS[c] = RMul(lam, Rbc[c])
+              /\ \A q \in AllCells(g) : MGet(MbcS, c, q) = RMul(lam, MGet(Mbc, c, q))
 
 \* the reference mesh record (what the documentation promises)
 RefMesh(g) ==
